@@ -417,6 +417,10 @@ func (g *awkGen) ops(ops []Op, ind string) string {
 		case "sa":
 			if o.S == "" && g.pick(2) == 0 {
 				fmt.Fprintf(&b, "%sdelete ARGV[%d]\n", ind, o.N)
+			} else if o.S == "40471" && g.pick(3) > 0 {
+				// an ARGV element that holds a NUMBER names the file its string form names (seeded C11-r2: read through .s, a
+				// numeric element looked empty and was skipped)
+				fmt.Fprintf(&b, "%sARGV[%d] = %s\n", ind, o.N, []string{"40471", "40000 + 471", "40471.0"}[g.pick(3)])
 			} else {
 				fmt.Fprintf(&b, "%sARGV[%d] = %s\n", ind, o.N, awkStr(o.S))
 			}
